@@ -132,9 +132,18 @@ def py_filler(rng, ids, style):
     return Unit([f"def {fn}(x):", '    """Return x unchanged."""', "    y = x", "    return y", ""], [], "py_filler")
 
 
+def py_loc_edge(rng, ids, style):
+    """a class with exactly 12 code lines and blank / comment lines inside: sits on `max_loc: 12` without being reported"""
+    name = f"Edge{ids.next()}"
+    lines = [f"class {name}:", "    def __init__(self):", "        self.v = 0", ""]
+    for i in range(3):
+        lines += [f"    def step{i}(self, x):", "        self.v = self.v + x", "", "        return self.v", "    # between methods" if i < 2 else ""]
+    return Unit(lines, [], "py_loc_edge")
+
+
 PY_UNITS = [(py_nest, ["plain", "multiline", "decorated", "async"]), (py_srp, ["plain", "decorated", "base"]), (py_stateless, ["plain"]),
             (py_method_property, ["plain"]), (py_magic, ["plain", "multiline", "unicode", "continuation"]), (py_print, ["plain", "multiline"]),
-            (py_perf, ["plain"]), (py_pipeline, ["plain"]), (py_filler, ["plain"])]
+            (py_perf, ["plain"]), (py_pipeline, ["plain"]), (py_filler, ["plain"]), (py_loc_edge, ["plain"])]
 
 
 # ---------------------------------------------------------------- TypeScript units
@@ -189,8 +198,17 @@ def ts_filler(rng, ids, style):
     return Unit([f"function {fn}(x: number): number {{", "  const y = x;", "  return y;", "}"], [], "ts_filler")
 
 
+def ts_loc_edge(rng, ids, style):
+    name = f"Edge{ids.next()}"
+    lines = [f"class {name} {{", "  v = 0;"]
+    for i in range(3):
+        lines += ["", f"  step{i}(x: number): number {{", "    this.v = this.v + x;", "    return this.v;", "  }"]
+    lines.append("}")
+    return Unit(lines, [], "ts_loc_edge")
+
+
 TS_UNITS = [(ts_nest, ["plain", "multiline", "export"]), (ts_srp, ["plain", "export", "decorated_export"]), (ts_magic, ["plain", "multiline"]), (ts_print, ["plain"]),
-            (ts_filler, ["plain"])]
+            (ts_filler, ["plain"]), (ts_loc_edge, ["plain"])]
 
 
 # ---------------------------------------------------------------- Rust units
@@ -261,8 +279,18 @@ def rs_filler(rng, ids, style):
     return Unit([f"fn {fn}(x: i32) -> i32 {{", "    let y = x;", "    y", "}"], [], "rs_filler")
 
 
+def rs_test(rng, ids, style):
+    """test code: nothing is reported while allow_in_tests is on (stacked attributes above the item)"""
+    fn = f"check_{ids.next()}"
+    if style == "module":
+        lines = ["#[cfg(test)]", "#[allow(dead_code)]", f"mod tests_{ids.next()} {{", f"    fn {fn}() {{", "        let _v = lookup().unwrap();", "    }", "}"]
+    else:
+        lines = ["#[test]", "#[should_panic]", f"fn {fn}() {{", "    let _v = lookup().unwrap();", "}"]
+    return Unit(lines, [], "rs_test_" + style)
+
+
 RS_UNITS = [(rs_nest, ["plain", "multiline", "attr"]), (rs_unwrap, ["plain", "chain", "nested_arg"]), (rs_clone, ["plain", "multiline"]),
-            (rs_blocking, ["plain", "multiline"]), (rs_magic, ["plain"]), (rs_srp, ["plain"]), (rs_filler, ["plain"])]
+            (rs_blocking, ["plain", "multiline"]), (rs_magic, ["plain"]), (rs_srp, ["plain"]), (rs_filler, ["plain"]), (rs_test, ["fn", "module"])]
 
 UNITS = {"py": PY_UNITS, "ts": TS_UNITS, "rs": RS_UNITS}
 COMMENT = {"py": "# ", "ts": "// ", "rs": "// "}
